@@ -280,6 +280,31 @@ theorem clientCtx_req (cid : Bytes) (opid : Nat) (U : Hdrs) (ns : Int)
 theorem encodeTimeout_whole (ms : Int) : encodeTimeout (ms * 1000000) = formatInt ms := by
   unfold encodeTimeout nsPerMs
   rw [Int.mul_tdiv_cancel _ (by decide)]
+  split
+  · rename_i h
+    obtain ⟨hpos, hz⟩ := h
+    subst hz
+    omega
+  · rfl
+
+/-- A positive timeout never encodes as "0" (which `ToContext` reads as "no deadline"): below the header's
+resolution it is written as 1 ms. -/
+theorem encodeTimeout_pos_ne_zero (ns : Int) (h : 0 < ns) (hhi : ns < 9223372036854775808) :
+    encodeTimeout ns ≠ formatInt 0 := by
+  unfold encodeTimeout
+  split
+  · intro e
+    have := congrArg parseI64 e
+    rw [parseI64_formatInt 1 (by decide) (by decide), parseI64_formatInt 0 (by decide) (by decide)] at this
+    cases this
+  · rename_i hn
+    have hne : Int.tdiv ns nsPerMs ≠ 0 := fun e => hn ⟨h, e⟩
+    intro e
+    have hpos : 0 ≤ Int.tdiv ns nsPerMs := Int.tdiv_nonneg (by omega) (by decide)
+    have := congrArg parseI64 e
+    have hle : Int.tdiv ns nsPerMs ≤ ns := Int.tdiv_le_self _ (by omega)
+    rw [parseI64_formatInt _ (by omega) (by omega), parseI64_formatInt 0 (by decide) (by decide)] at this
+    exact hne (Option.some.inj this)
 
 theorem decodeTimeout_formatInt (ms : Int) (h0 : -9223372036854 ≤ ms) (h1 : ms ≤ 9223372036854) :
     decodeTimeout (formatInt ms) = ms * 1000000 := by
